@@ -30,6 +30,8 @@ func init() {
 	Theory["be64"] = TheoryFn{SMT: "be64", HeapArg: "byte", Ret: "Int", RetBV: "(_ BitVec 64)", RetT: typU64}
 	// smear(x): the smallest 2^b-1 >= x (all bits below the top set bit of x set); bv mode only
 	Theory["smear"] = TheoryFn{SMT: "smear64", Ret: "Int", RetBV: "(_ BitVec 64)", RetT: typU64}
+	// g2vecValid(bytes, n): the 96n bytes at the start of the slice are canonical encodings of n points of G2 (int mode)
+	Theory["g2vecValid"] = TheoryFn{SMT: "g2vecValid", HeapArg: "byte", Ret: "Bool", RetT: types.Typ[types.Bool]}
 	// ChaCha20 (int mode only): ks(sid, i) is byte i of the keystream of stream sid;
 	// chachaStream(key, nonce) names the stream of a 32-byte key and a 12-byte nonce by their contents.
 	Theory["ks"] = TheoryFn{SMT: "ks", Ret: "Int", RetT: types.Typ[types.Uint8]}
@@ -74,6 +76,8 @@ func TheoryPrelude(m Mode) string {
 		fmt.Fprintf(&b, "(define-fun be64 ((h %s) (s Slice)) Int (+ %s))\n", hs, strings.Join(be, " "))
 		fmt.Fprintf(&b, "(define-fun le64z ((h %s) (s Slice) (n Int)) Int (+ %s))\n", hs, strings.Join(lez, " "))
 		b.WriteString("(declare-fun smear64 (Int) Int)\n")
+		b.WriteString("(declare-fun g2vecValidA ((Array Int Int) Int Int) Bool)\n")
+		fmt.Fprintf(&b, "(define-fun g2vecValid ((h %s) (s Slice) (n Int)) Bool (g2vecValidA (select h (p.obj (sl.ptr s))) (p.off (sl.ptr s)) n))\n", hs)
 		b.WriteString("(declare-fun ks (Int Int) Int)\n(declare-fun xor8 (Int Int) Int)\n")
 		b.WriteString("(assert (forall ((x Int)) (! (= (xor8 0 x) x) :pattern ((xor8 0 x)))))\n")
 		b.WriteString("(assert (forall ((s Int) (i Int)) (! (and (<= 0 (ks s i)) (<= (ks s i) 255)) :pattern ((ks s i)))))\n")
